@@ -107,4 +107,86 @@ func largeCollections(res *lp.Result, prop string) {
 			}
 		}
 	}
+	// one element longer than 1 MiB (contents of that size are read piecewise): list<blob>, tuple<int,blob>, a UDT field
+	listBlob, _ := datacodec.NewList(datatype.NewList(datatype.Blob))
+	tupleIB, _ := datacodec.NewTuple(datatype.NewTuple(datatype.Int, datatype.Blob))
+	udtT, _ := datatype.NewUserDefined("ks", "t", []string{"a", "b"}, []datatype.DataType{datatype.Int, datatype.Blob})
+	udtC, _ := datacodec.NewUserDefined(udtT)
+	for _, ver := range []primitive.ProtocolVersion{primitive.ProtocolVersion3, primitive.ProtocolVersion5} {
+		for _, n := range []int{1 << 20, 1<<20 + 1, 1<<21 + 5} {
+			big := make([]byte, n)
+			for i := range big {
+				big[i] = byte(i*13 + 1)
+			}
+			be32 := func(k int) []byte { return binary.BigEndian.AppendUint32(nil, uint32(k)) }
+			listSpec := append(append(append(append(be32(2), be32(1)...), 0x42), be32(n)...), big...)
+			tupSpec := append(append(append(be32(4), 0, 0, 0, 7), be32(n)...), big...)
+			type tc struct {
+				name  string
+				codec datacodec.Codec
+				value interface{}
+				spec  []byte
+			}
+			for _, c := range []tc{
+				{"list<blob>", listBlob, [][]byte{{0x42}, big}, listSpec},
+				{"tuple<int,blob>", tupleIB, []interface{}{int32(7), big}, tupSpec},
+				{"udt<a int, b blob>", udtC, map[string]interface{}{"a": int32(7), "b": big}, tupSpec},
+			} {
+				id := fmt.Sprintf("%s %s with an element of %d bytes, version %v", prop, c.name, n, ver)
+				res.Case(id, true)
+				res.Count("large-elements")
+				enc, err := c.codec.Encode(c.value, ver)
+				if err != nil {
+					res.Add(lp.Finding{Kind: "violation", What: "valid value refused by the encoder: large element in " + c.name, Input: id, Impl: firstWords(err.Error())})
+					continue
+				}
+				if prop == "C12" && string(enc) != string(c.spec) {
+					res.Add(lp.Finding{Kind: "violation", What: "encoded bytes differ from the specification's format: large element in " + c.name, Input: id,
+						Impl: fmt.Sprintf("%d bytes, specification %d bytes", len(enc), len(c.spec))})
+				}
+				src := enc
+				if prop == "C12" {
+					src = c.spec
+				}
+				var dest interface{}
+				if _, err := c.codec.Decode(src, &dest, ver); err != nil {
+					res.Add(lp.Finding{Kind: "violation", What: "bytes in the specification's format refused by the decoder: large element in " + c.name, Input: id, Impl: firstWords(err.Error())})
+					continue
+				}
+				// the big element must come back byte for byte (found by walking the decoded value for []byte leaves)
+				found, sizes := false, []int{}
+				var walk func(v reflect.Value)
+				walk = func(v reflect.Value) {
+					for v.IsValid() && (v.Kind() == reflect.Interface || v.Kind() == reflect.Ptr) && !v.IsNil() {
+						v = v.Elem()
+					}
+					if !v.IsValid() {
+						return
+					}
+					switch v.Kind() {
+					case reflect.Slice:
+						if b, ok := v.Interface().([]byte); ok {
+							sizes = append(sizes, len(b))
+							if string(b) == string(big) {
+								found = true
+							}
+							return
+						}
+						for i := 0; i < v.Len(); i++ {
+							walk(v.Index(i))
+						}
+					case reflect.Map:
+						for _, k := range v.MapKeys() {
+							walk(v.MapIndex(k))
+						}
+					}
+				}
+				walk(reflect.ValueOf(dest))
+				if !found {
+					res.Add(lp.Finding{Kind: "violation", What: "an element longer than 1 MiB is decoded to other bytes: " + c.name, Input: id,
+						Impl: fmt.Sprintf("byte strings decoded: sizes %v, expected one of %d bytes", sizes, n)})
+				}
+			}
+		}
+	}
 }
